@@ -55,6 +55,14 @@ var vC03Programs = []string{
 	`(defn mk [a] (let [v a] (fn [] (fn [] (+ 0 (set v (+ v 9002))))))) (def f (mk 9001)) (def g (f)) (g) (+ (g) 0)`,
 	// 23 set of a global from three closure levels
 	`(def x 9001) (defn mk [] (fn [] (fn [] (fn [] (set x (+ x 1)))))) ((((mk)))) x`,
+	// 24 a fn literal in argument position (compiled when the call runs) must not see the caller's caller's locals
+	`(defn apply1 [g] (g)) (defn inner [] (apply1 (fn [] v))) (defn outer [v] (inner)) (outer 9001)`,
+	// 25 ... nor set them
+	`(defn apply1 [g] (g)) (defn inner [] (apply1 (fn [] (set v 9002)))) (defn outer [v] (inner) v) (outer 9001)`,
+	// 26 a fn literal in callee position
+	`(defn inner [] ((fn [] v))) (defn outer [v] (inner)) (outer 9001)`,
+	// 27 the same names bound lexically: the lexical binding wins over the caller's
+	`(defn apply1 [g] (g)) (defn inner [v] (apply1 (fn [] v))) (defn outer [v] (inner 9002)) (outer 9001)`,
 	// 17 function defined in let refers to let variable after let exits
 	`(def g (let [x 9001] (fn [y] (+ x y)))) (let [x 9002] (g 9003))`,
 }
@@ -92,11 +100,15 @@ func (g *vC03Gen) name() Sexp {
 func (g *vC03Gen) expr(d int) Sexp {
 	e := g.env
 	if d <= 0 {
-		switch vChoice("atom", 3) {
+		switch vChoice("atom", 4) {
 		case 0:
 			return vS(e, "x")
 		case 1:
 			return vS(e, "y")
+		case 2:
+			// z is bound nowhere the body can lexically see - only in the
+			// scope of the caller: using it is an error, never the caller's value
+			return vS(e, "z")
 		default:
 			return vSmallInt("lit")
 		}
@@ -143,17 +155,17 @@ func vh_C03_grammar() {
 		forms = append(forms,
 			vL(s("defn"), s("mk"), vA(e, s("y")), vL(s("fn"), vA(e, s("x")), vL(vL(s("fn"), vA(e), body)))),
 			vL(s("def"), s("f"), vL(s("mk"), vSmallInt("my"))),
-			vL(s("t"), vL(s("let"), vA(e, s("x"), vSmallInt("cx"), s("y"), vSmallInt("cy")), vL(s("f"), vSmallInt("arg")))),
+			vL(s("t"), vL(s("let"), vA(e, s("x"), vSmallInt("cx"), s("y"), vSmallInt("cy"), s("z"), vSmallInt("cz")), vL(s("f"), vSmallInt("arg")))),
 			vL(s("t"), vL(s("f"), vSmallInt("arg2"))))
 	case 0:
 		forms = append(forms,
 			vL(s("defn"), s("f"), vA(e, s("x")), body),
-			vL(s("t"), vL(s("let"), vA(e, s("x"), vSmallInt("cx"), s("y"), vSmallInt("cy")), vL(s("f"), vSmallInt("arg")))))
+			vL(s("t"), vL(s("let"), vA(e, s("x"), vSmallInt("cx"), s("y"), vSmallInt("cy"), s("z"), vSmallInt("cz")), vL(s("f"), vSmallInt("arg")))))
 	default:
 		forms = append(forms,
 			vL(s("defn"), s("mk"), vA(e, s("y")), vL(s("fn"), vA(e, s("x")), body)),
 			vL(s("def"), s("f"), vL(s("mk"), vSmallInt("my"))),
-			vL(s("t"), vL(s("let"), vA(e, s("x"), vSmallInt("cx"), s("y"), vSmallInt("cy")), vL(s("f"), vSmallInt("arg")))),
+			vL(s("t"), vL(s("let"), vA(e, s("x"), vSmallInt("cx"), s("y"), vSmallInt("cy"), s("z"), vSmallInt("cz")), vL(s("f"), vSmallInt("arg")))),
 			vL(s("t"), vL(s("f"), vSmallInt("arg2"))))
 	}
 	forms = append(forms, vL(s("t"), s("x")), vL(s("t"), s("y")))
@@ -206,7 +218,7 @@ func vh_C03_blocks() {
 		vL(s("defn"), s("f"), vA(e, s("x")), block),
 		// called from a scope that shadows both names; the pair of closures
 		// is used again after the creator returned
-		vL(s("def"), s("p"), vL(s("let"), vA(e, s("x"), vSmallInt("cx"), s("y"), vSmallInt("cy")), vL(s("f"), vSmallInt("arg")))),
+		vL(s("def"), s("p"), vL(s("let"), vA(e, s("x"), vSmallInt("cx"), s("y"), vSmallInt("cy"), s("z"), vSmallInt("cz")), vL(s("f"), vSmallInt("arg")))),
 		vL(s("t"), vL(vL(s("first"), s("p")))),
 		vL(vL(s("first"), vL(s("rest"), s("p"))), vSmallInt("pv2")),
 		vL(s("t"), vL(vL(s("first"), s("p")))),
